@@ -147,7 +147,7 @@ Proof.
   intros t g Hin Hg. apply in_app_or in Hg. destruct Hg as [Hg|Hg].
   - exists (t_name t). split; [apply below_refl|]. left. exists t. split; [apply (In_find_ty _ _ (wf_nodup _ init_WFh) Hin)|exact Hg].
   - destruct (wf_inh_sound _ init_WFf t g Hin Hg) as (a & ta & Hs & Ha & Ho). exists a. split; [apply sbelow_below; exact Hs|].
-    left. exists ta. auto.
+    left. exists ta. split; assumption.
 Qed.
 
 (* ---- _add_feature(copy(f)) of a declared feature never raises ---- *)
@@ -305,13 +305,22 @@ Lemma merge_super_branch ts x sup s1 : merge_super fn_form (strip ts) x sup = Ok
   exists ex exsup, get_type ts x = Ok ex /\ t_super ex = Some exsup /\ ts_subsumes ts (t_name ex) sup = Ok false /\
     ts_subsumes ts exsup sup = Ok true /\ merge_super fn_form ts x sup = reparent fn_form ts (t_name ex) exsup sup.
 Proof.
-  unfold merge_super. rewrite strip_get_type. destruct (get_type ts x) as [ex| |]; cbn [bind res_map]; try discriminate.
-  cbn [strip_ty t_super t_name]. destruct (t_super ex) as [exsup|]; [|discriminate].
-  destruct (String.eqb sup exsup); [left; reflexivity|]. rewrite !strip_subsumes.
-  destruct (ts_subsumes ts (t_name ex) sup) as [b1| |]; cbn [bind]; try discriminate. destruct b1; [discriminate|].
-  destruct (ts_subsumes ts exsup sup) as [b2| |]; cbn [bind]; try discriminate. destruct b2.
-  - intros _. right. exists ex, exsup. auto.
-  - destruct (ts_subsumes ts sup exsup) as [b3| |]; cbn [bind]; try discriminate. destruct b3; [left; reflexivity|discriminate].
+  intros H. unfold merge_super in H. rewrite strip_get_type in H.
+  destruct (get_type ts x) as [ex| |] eqn:Eg; cbn [bind res_map] in H; try discriminate.
+  cbn [strip_ty t_super t_name] in H. destruct (t_super ex) as [exsup|] eqn:Es; [|discriminate].
+  assert (U : merge_super fn_form ts x sup =
+    if String.eqb sup exsup then Ok ts
+    else do b1 <- ts_subsumes ts (t_name ex) sup;;
+         if b1 then Err EValue
+         else do b2 <- ts_subsumes ts exsup sup;;
+              if b2 then reparent fn_form ts (t_name ex) exsup sup
+              else do b3 <- ts_subsumes ts sup exsup;; if b3 then Ok ts else Err EValue).
+  { unfold merge_super. rewrite Eg. cbn [bind]. rewrite Es. reflexivity. }
+  rewrite U. clear U. destruct (String.eqb sup exsup); [left; reflexivity|]. rewrite !strip_subsumes in H.
+  destruct (ts_subsumes ts (t_name ex) sup) as [b1| |] eqn:E1; cbn [bind] in *; try discriminate. destruct b1; [discriminate|].
+  destruct (ts_subsumes ts exsup sup) as [b2| |] eqn:E2; cbn [bind] in *; try discriminate. destruct b2.
+  - right. exists ex, exsup. repeat split; assumption.
+  - destruct (ts_subsumes ts sup exsup) as [b3| |]; cbn [bind] in *; try discriminate. destruct b3; [left; reflexivity|discriminate].
 Qed.
 Lemma step_supers_sound L ts ts' x sup : sup_sound L ts -> step_supers ts ts' x sup ->
   (exists d, In d L /\ dname d = x /\ t_super (d_ty d) = Some sup) -> sup_sound L ts'.
@@ -319,4 +328,155 @@ Proof.
   intros HS SS HD n t1 s1 Hf1 Hs1. destruct (SS n t1 Hf1) as [[-> Hs1']|(t0 & Hf0 & Hs0)].
   - right. rewrite Hs1 in Hs1'. inversion Hs1'; subst s1. exact HD.
   - rewrite Hs0 in Hs1. apply (HS n t0 s1 Hf0 Hs1).
+Qed.
+
+(* ================================================================================================ Part 3: the converse simulation *)
+(* when the hierarchy-only step succeeds, the real step succeeds (with the same skeleton, by merge_decl_sk) *)
+Lemma merge_decl_ok L st d s1 : Inv L st -> sup_sound L (m_ts st) -> FJ L (m_ts st) -> AG L -> In d L -> decl_ok L d -> ready st d ->
+  merge_decl fn_form (SK st) (erase_d d) = Ok s1 ->
+  exists st1, merge_decl fn_form st d = Ok st1 /\ FJ L (m_ts st1).
+Proof.
+  intros HI HS HF HA Hd Hok (sup & Hs & Hr) H. destruct (ready_registered L st d sup HI Hs Hr) as (tsup & Hfsup & _ & _).
+  pose proof (inv_HI _ _ HI) as W. destruct (find_ty_In _ _ _ Hfsup) as [_ Hsn].
+  assert (HD : exists d0, In d0 L /\ dname d0 = dname d /\ t_super (d_ty d0) = Some sup) by (exists d; auto).
+  assert (Hdecl : forall f, In f (t_own (d_ty d)) -> declared_feat L (dname d) f) by (intros f Hf; right; exists d; auto).
+  unfold merge_decl in *. cbn [erase_d d_ty d_in SK m_ts m_done m_tags strip_ty t_super t_name t_desc t_own] in H.
+  rewrite Hs in *. fold (dname d) in *. rewrite strip_registered in H.
+  destruct (registered (m_ts st) (dname d)) eqn:Er.
+  - destruct (merge_super fn_form (strip (m_ts st)) (dname d) sup) as [s_1| |] eqn:E; cbn [bind] in H; try discriminate.
+    assert (E1 : exists ts1, merge_super fn_form (m_ts st) (dname d) sup = Ok ts1 /\ FJ L ts1).
+    { destruct (merge_super_branch _ _ _ _ E) as [E0|(ex & exsup & Eg & Es & Eb1 & Eb2 & E0)]; [exists (m_ts st); auto|].
+      rewrite E0. pose proof Er as Er'. apply registered_iff in Er'. destruct Er' as (ex' & Hfx). rewrite (get_type_full _ _ _ Hfx) in Eg.
+      inversion Eg; subst ex'. destruct (find_ty_In _ _ _ Hfx) as [Hexin Hexn].
+      assert (Hfx' : find_ty (m_ts st) (t_name ex) = Some ex) by (rewrite Hexn; exact Hfx).
+      destruct (HI_subsumes_gen _ (t_name ex) sup ex tsup W (get_type_full _ _ _ Hfx') (get_type_full _ _ _ Hfsup)) as (b1 & Hb1 & Hiff1).
+      rewrite Eb1 in Hb1. inversion Hb1; subst b1.
+      destruct (HI_super _ ex exsup W Hexin Es) as (tp & Hfp & _). destruct (find_ty_In _ _ _ Hfp) as [_ Hpn].
+      destruct (HI_subsumes_gen _ exsup sup tp tsup W (get_type_full _ _ _ Hfp) (get_type_full _ _ _ Hfsup)) as (b2 & Hb2 & Hiff2).
+      rewrite Eb2 in Hb2. inversion Hb2; subst b2. rewrite Hsn in Hiff1, Hiff2. rewrite Hpn in Hiff2.
+      apply (reparent_ok L (m_ts st) (t_name ex) exsup sup ex tsup W HS HF HA Hfx' Es Hfsup).
+      - intros Hb. apply Hiff1 in Hb. discriminate.
+      - apply Hiff2. reflexivity.
+      - rewrite Hexn. exact HD. }
+    destruct E1 as (ts1 & E1 & HF1). rewrite E1. cbn [bind].
+    destruct (merge_super_spec _ _ _ _ _ W Er Hfsup E1) as (_ & SS & t & s & Ht & _).
+    destruct (merge_features_ok L (d_in d) (dname d) (t_own (d_ty d)) ts1 (m_tags st) (merge_super_HI _ _ _ _ W E1)
+                (step_supers_sound L _ _ _ _ HS SS HD) HF1 HA (proj2 (registered_iff _ _) (ex_intro _ t Ht)) Hdecl) as (r & Ef & HFr).
+    rewrite Ef. cbn [bind]. eexists. split; [reflexivity|exact HFr].
+  - destruct (create_type (strip (m_ts st)) (dname d) sup None) as [s_1| |] eqn:E; cbn [bind] in H; try discriminate.
+    destruct (create_type_ok L (m_ts st) (dname d) sup tsup (t_desc (d_ty d)) s_1 W HS HF HA Hfsup E) as (ts1 & E1 & HF1).
+    rewrite E1. cbn [bind].
+    destruct (create_type_spec _ _ _ _ _ _ W Hfsup E1) as (_ & SS & t & Ht & _).
+    destruct (merge_features_ok L (d_in d) (dname d) (t_own (d_ty d)) ts1 (m_tags st) (create_type_HI _ _ _ _ _ W E1)
+                (step_supers_sound L _ _ _ _ HS SS HD) HF1 HA (proj2 (registered_iff _ _) (ex_intro _ t Ht)) Hdecl) as (r & Ef & HFr).
+    rewrite Ef. cbn [bind]. eexists. split; [reflexivity|exact HFr].
+Qed.
+
+Lemma SK_inj_done a b : SK a = SK b -> m_done a = m_done b.
+Proof. intros H. inversion H. reflexivity. Qed.
+
+Section Lift.
+  Variable L : list decl.
+  Hypothesis HA : AG L.
+  Hypothesis Hok : forall d, In d L -> decl_ok L d.
+
+  Lemma pass_lift : forall l st s' rest', incl l L -> Inv2 L st -> FJ L (m_ts st) ->
+    pass fn_form (map erase_d l) (SK st) = Ok (s', rest') ->
+    exists st' rest, pass fn_form l st = Ok (st', rest) /\ SK st' = s' /\ map erase_d rest = rest' /\ Inv2 L st' /\ FJ L (m_ts st').
+  Proof.
+    induction l as [|d r IH]; intros st s' rest' Hl HI HF H; cbn [pass map] in *.
+    - inversion H; subst. exists st, []. split; [reflexivity|]. split; [reflexivity|]. split; [reflexivity|]. split; assumption.
+    - assert (Hd : In d L) by (apply Hl; left; reflexivity).
+      assert (Hr : incl r L) by (intros y Hy; apply Hl; right; exact Hy).
+      cbn [erase_d d_ty strip_ty t_super] in H. destruct (t_super (d_ty d)) as [s|] eqn:Es; [|discriminate].
+      change (m_done (SK st)) with (m_done st) in H.
+      destruct (is_predef s || memb s (m_done st)) eqn:Erdy.
+      + change (mkDecl (d_in d) (strip_ty (d_ty d))) with (erase_d d) in H.
+        destruct (merge_decl fn_form (SK st) (erase_d d)) as [s1| |] eqn:E; cbn [bind] in H; try discriminate.
+        assert (Hrdy : ready st d) by (exists s; auto).
+        destruct (merge_decl_ok L st d s1 (proj1 HI) (proj2 HI) HF HA Hd (Hok d Hd) Hrdy E) as (st1 & E1 & HF1).
+        pose proof (merge_decl_sk _ _ _ E1) as E2. rewrite E in E2. inversion E2; subst s1.
+        destruct (merge_decl_Inv2 L st d st1 HI Hd (Hok d Hd) Hrdy E1) as (HI1 & _ & _).
+        rewrite E1. cbn [bind]. apply (IH st1 s' rest' Hr HI1 HF1 H).
+      + destruct (pass fn_form (map erase_d r) (SK st)) as [[s2 rest2]| |] eqn:E; cbn [bind fst snd] in H; try discriminate.
+        destruct (IH st s2 rest2 Hr HI HF E) as (st' & rest & E1 & E2 & E3 & HI' & HF'). rewrite E1. cbn [bind fst snd].
+        inversion H; subst s' rest'. exists st', (d :: rest). cbn [map]. rewrite E3.
+        split; [reflexivity|]. split; [exact E2|]. split; [reflexivity|]. split; assumption.
+  Qed.
+  Lemma rounds_lift : forall fuel l st s', incl l L -> Inv2 L st -> FJ L (m_ts st) ->
+    rounds fn_form fuel (map erase_d l) (SK st) = Ok s' -> exists st', rounds fn_form fuel l st = Ok st' /\ SK st' = s'.
+  Proof.
+    induction fuel as [|k IH]; intros l st s' Hl HI HF H; cbn [rounds] in *; [discriminate|].
+    destruct (pass fn_form (map erase_d l) (SK st)) as [[s1 rest1]| |] eqn:Ep; cbn [bind fst snd] in H; try discriminate.
+    destruct (pass_lift l st s1 rest1 Hl HI HF Ep) as (st1 & rest & E1 & E2 & E3 & HI1 & HF1). rewrite E1. cbn [bind fst snd].
+    destruct (pass_shape _ _ _ _ _ E1) as [Hincl _]. subst rest1. destruct rest as [|d0 rest0]; cbn [map] in H.
+    - inversion H; subst s'. exists st1. auto.
+    - rewrite map_length in H. change (List.length (erase_d d0 :: map erase_d rest0)) with (S (List.length (map erase_d rest0))) in H.
+      rewrite map_length in H. change (S (List.length rest0)) with (List.length (d0 :: rest0)) in H.
+      destruct (Nat.eqb (List.length l) (List.length (d0 :: rest0))); [discriminate|].
+      change (erase_d d0 :: map erase_d rest0) with (map erase_d (d0 :: rest0)) in H. rewrite <- E2 in H.
+      apply (IH (d0 :: rest0) st1 s'); auto. intros y Hy. apply Hl, Hincl, Hy.
+  Qed.
+End Lift.
+
+Lemma rounds_merge inputs st : all_WFh inputs ->
+  rounds fn_form (S (List.length (type_list inputs))) (type_list inputs) st0 = Ok st -> merge inputs = Ok (m_ts st).
+Proof.
+  intros HW Er. unfold merge, merge_with. fold st0. rewrite Er. cbn [bind].
+  destruct (rounds_end inputs _ st HW Er) as (HI & HR). rewrite (fixup_id _ (end_WFh _ st HI HR)). reflexivity.
+Qed.
+Lemma Inv2_st0 L : Inv2 L st0.
+Proof. split; [apply Inv_st0|apply init_sup_sound]. Qed.
+
+(* Under the agreement premise the merge succeeds exactly when its hierarchy-only run does, with the same hierarchy *)
+Theorem merge_of_sk inputs s : all_WFh inputs -> AG (type_list inputs) -> merge_sk inputs = Ok s ->
+  exists ts, merge inputs = Ok ts /\ strip ts = m_ts s.
+Proof.
+  intros HW HA H. unfold merge_sk in H.
+  destruct (rounds_lift (type_list inputs) HA (type_list_ok inputs HW) _ (type_list inputs) st0 s (incl_refl _) (Inv2_st0 _) (FJ_init _) H)
+    as (st & Er & Es).
+  exists (m_ts st). split; [apply (rounds_merge inputs st HW Er)|]. rewrite <- Es. reflexivity.
+Qed.
+Theorem sk_of_merge inputs ts : all_WFh inputs -> merge inputs = Ok ts -> exists s, merge_sk inputs = Ok s /\ m_ts s = strip ts.
+Proof.
+  intros HW H. destruct (merge_inv inputs ts HW H) as (st & Er & <- & _). exists (SK st). split; [|reflexivity].
+  unfold merge_sk. apply (rounds_sk _ _ _ _ Er).
+Qed.
+
+(* ---- the same inputs with all features erased ---- *)
+Definition erase_ty (t : ty) : ty := mkTy (t_name t) (t_super t) (t_desc t) (t_children t) [] [] (t_ctor t) (t_ctor_fn t) (t_rank t).
+Definition erase_feats (ts : tsys) : tsys := map erase_ty ts.
+Lemma erase_shape : keeps_shape erase_ty.
+Proof. intros t. repeat split. Qed.
+Lemma erase_WFh ts : WFh ts -> WFh (erase_feats ts).
+Proof. intros W. apply WFh_map; [exact erase_shape| | |exact W]; intros t f _ Hf; cbn [erase_ty t_own t_inh app] in Hf; contradiction. Qed.
+Lemma user_types_erase ts : user_types (erase_feats ts) = map erase_ty (user_types ts).
+Proof.
+  unfold user_types, erase_feats. induction ts as [|t r IH]; [reflexivity|]. cbn [map filter erase_ty t_name].
+  destruct (negb (is_predef (t_name t))); cbn [map]; rewrite IH; reflexivity.
+Qed.
+Lemma type_list_from_erase i inputs :
+  map erase_d (type_list_from i (map erase_feats inputs)) = map erase_d (type_list_from i inputs).
+Proof.
+  revert i. induction inputs as [|ts r IH]; intros i; [reflexivity|]. cbn [map type_list_from]. rewrite !map_app, IH. f_equal.
+  rewrite user_types_erase, !map_map. apply map_ext. intros t. reflexivity.
+Qed.
+Lemma merge_sk_erase inputs : merge_sk (map erase_feats inputs) = merge_sk inputs.
+Proof.
+  unfold merge_sk, type_list. rewrite type_list_from_erase.
+  assert (E : List.length (type_list_from 1 (map erase_feats inputs)) = List.length (type_list_from 1 inputs)).
+  { rewrite <- (map_length erase_d), type_list_from_erase, map_length. reflexivity. }
+  rewrite E. reflexivity.
+Qed.
+(* MERGE_AGREEING_FEATURES_OK: when the declarations of every feature name agree along the declared supertype edges, the
+   features add no failure: if the merge of the same inputs with all features erased succeeds (the supertypes are
+   comparable, in the order given), so does the merge itself, with the same hierarchy *)
+Theorem merge_agreeing_features_ok inputs sk : all_WFh inputs -> AG (type_list inputs) ->
+  merge (map erase_feats inputs) = Ok sk -> exists ts, merge inputs = Ok ts /\ strip ts = strip sk.
+Proof.
+  intros HW HA H.
+  assert (HWe : all_WFh (map erase_feats inputs)).
+  { intros ts Hts. apply in_map_iff in Hts. destruct Hts as (ts0 & <- & Hts0). apply erase_WFh, HW, Hts0. }
+  destruct (sk_of_merge _ _ HWe H) as (s & Hs & Es). rewrite merge_sk_erase in Hs.
+  destruct (merge_of_sk inputs s HW HA Hs) as (ts & Ht & Et). exists ts. split; [exact Ht|congruence].
 Qed.
